@@ -252,9 +252,11 @@ def symbolic_unit(arg_):
                     m['c'][c] = Constant(int(wit.get(f'c{j}_i', 0)), int(wit.get(f'c{j}_s', 0)))
                 t = prover.build(name, apply_map(arg0, m), seed, max_steps=300)
                 out['validated'] += 1
-                if prover.outcome(t) != p.value['cls'] or len(t.history) != p.value['steps']:
-                    out['mismatch'].append(f'{argstr} {wit}: path says {p.value["cls"]}/{p.value["steps"]} steps, '
-                                           f'concrete run {prover.outcome(t)}/{len(t.history)}')
+                # the number of steps may differ: with the hash abstraction sets of constants iterate
+                # in insertion order, with real hashes in hash order (one more tie-break source)
+                if prover.outcome(t) != p.value['cls']:
+                    out['mismatch'].append(f'{argstr} {wit}: path says {p.value["cls"]}, '
+                                           f'concrete run {prover.outcome(t)}')
         finally:
             lexsym.reset_cache()
             lexsym.install_hash_abstraction()
